@@ -446,6 +446,9 @@ func (u *Universe) proposalFault(s *Shard) ProposalFault {
 // has applied the entry.
 func (nh *NodeHost) SyncPropose(ctx context.Context, session *client.Session, cmd []byte) (sm.Result, error) {
 	u := nh.u
+	if g := u.Gate; g != nil && session != nil {
+		g("propose", nh.addr, session.ShardID, cmd)
+	}
 	u.mu.Lock()
 	defer u.mu.Unlock()
 	if _, ok := ctx.Deadline(); !ok {
@@ -520,6 +523,9 @@ func newEntry(s *Shard, cmd []byte) pb.Entry {
 // SyncRead performs a linearizable read: everything committed at call time is applied locally first.
 func (nh *NodeHost) SyncRead(ctx context.Context, shardID uint64, query interface{}) (interface{}, error) {
 	u := nh.u
+	if g := u.Gate; g != nil {
+		g("syncread", nh.addr, shardID, query)
+	}
 	u.mu.Lock()
 	defer u.mu.Unlock()
 	if _, ok := ctx.Deadline(); !ok {
@@ -542,6 +548,11 @@ func (nh *NodeHost) SyncRead(ctx context.Context, shardID uint64, query interfac
 		u.stat("read-on-stalled-replica")
 		return nil, ErrTimeout
 	}
+	u.nreads++
+	if u.ReadBusyPermille > 0 && s.Key.ShardID > u.FaultMinShard && u.keyed("readbusy", strHash(s.Key.String()), u.nreads)%1000 < u.ReadBusyPermille {
+		u.stat("read-busy")
+		return nil, ErrSystemBusy
+	}
 	if r.applied < s.last() {
 		u.stat("linearizable-read-on-lagging-replica")
 	}
@@ -561,6 +572,9 @@ func lookup(r *Replica, query interface{}) (res interface{}, err error) {
 // StaleRead queries the local replica directly.
 func (nh *NodeHost) StaleRead(shardID uint64, query interface{}) (interface{}, error) {
 	u := nh.u
+	if g := u.Gate; g != nil {
+		g("staleread", nh.addr, shardID, query)
+	}
 	u.mu.Lock()
 	defer u.mu.Unlock()
 	r, err := nh.local(shardID)
